@@ -252,7 +252,7 @@ Definition act_okc (d : dbc) (a : action) : Prop :=
                 | ACompact removed added => merge_ok (tables_entries (rem_tables d removed)) (tables_entries added)
                 | _ => True
                 end.
-Definition background (a : action) : Prop := match a with AWrite _ _ _ => False | _ => True end.
+Definition background (a : action) : Prop := match a with AWrite _ _ _ | AWriteAt _ _ _ _ => False | _ => True end.
 
 Inductive reachc : dbc -> Prop :=
 | rc_new mem wm : reachc (db_new mem wm)
@@ -283,7 +283,8 @@ Proof.
   induction 1 as [mem wm|d a RC IH OK|d o mem wm es RC IH RD].
   - intros x y [].
   - destruct (reach_inv _ (reachc_reach _ RC)) as [a0 [pre [cs [ca R]]]].
-    destruct a as [k del v| |n dir next|removed added]; cbn [do_action].
+    destruct a as [k del v| |n dir next|removed added|k del v rot]; cbn [do_action];
+      [| | | |unfold db_write_at; destruct rot; exact IH].
     + destruct (db_write_fields d k del v) as [_ [-> _]]. exact IH.
     + exact IH.
     + destruct OK as [OK _]. cbn [act_ok] in OK. rewrite (rp_sealed _ _ _ _ _ R), map_length in OK.
@@ -296,7 +297,7 @@ Qed.
 Theorem background_keeps_contents d a k : reachc d -> act_okc d a -> background a -> db_get (do_action d a) k = db_get d k.
 Proof.
   intros RC OK BG. destruct (reach_inv _ (reachc_reach _ RC)) as [a0 [pre [cs [ca R]]]].
-  destruct a as [k0 del v| |n dir next|removed added]; cbn [do_action].
+  destruct a as [k0 del v| |n dir next|removed added|k0 del v rot]; cbn [do_action]; [| | | |destruct BG].
   - destruct BG.
   - rewrite (db_get_char _ _ _ _ _ k (rep_checkpoint _ _ _ _ _ R)), (db_get_char _ _ _ _ _ k R). reflexivity.
   - destruct OK as [OK _]. cbn [act_ok] in OK. rewrite (rp_sealed _ _ _ _ _ R), map_length in OK.
@@ -346,7 +347,9 @@ Inductive sreach : sys -> Prop :=
 | sr_checkpoint s : sreach s ->
     sreach (mkSys (fst (db_checkpoint (s_db s))) (s_map s) (s_scope s) ((s_db s, s_map s, s_scope s) :: s_caps s))
 | sr_restore s d0 m0 sc0 o mem wm es : sreach s -> In (d0, m0, sc0) (s_caps s) -> capture_read d0 = ROk es ->
-    sreach (mkSys (restore_of d0 o mem wm es) m0 (fun k => sc0 k && owns o k) (s_caps s)).
+    sreach (mkSys (restore_of d0 o mem wm es) m0 (fun k => sc0 k && owns o k) (s_caps s))
+| sr_write_at s k del v rot : sreach s ->      (* a write with ANY rotation decision: when a buffer counts as full is a policy *)
+    sreach (mkSys (db_write_at (s_db s) k del v rot) (m_write (s_map s) k del v) (s_scope s) (s_caps s)).
 
 Definition holds (d : dbc) (m : amap) (sc : bytes -> bool) : Prop :=
   reachc d /\ forall k, sc k = true -> db_get d k = m k.
@@ -354,7 +357,7 @@ Definition holds (d : dbc) (m : amap) (sc : bytes -> bool) : Prop :=
 Lemma sreach_holds s : sreach s ->
   holds (s_db s) (s_map s) (s_scope s) /\ forall d0 m0 sc0, In (d0, m0, sc0) (s_caps s) -> holds d0 m0 sc0.
 Proof.
-  induction 1 as [mem wm|s k del v _ [[RC G] IHc]|s a _ [[RC G] IHc] BG OK|s _ [[RC G] IHc]|s d0 m0 sc0 o mem wm es _ [_ IHc] Hin RD];
+  induction 1 as [mem wm|s k del v _ [[RC G] IHc]|s a _ [[RC G] IHc] BG OK|s _ [[RC G] IHc]|s d0 m0 sc0 o mem wm es _ [_ IHc] Hin RD|s k del v rot _ [[RC G] IHc]];
     cbn [s_db s_map s_scope s_caps].
   - split; [|intros ? ? ? []]. split; [apply rc_new|]. intros k _. reflexivity.
   - split; [|exact IHc]. split; [exact (rc_act _ (AWrite k del v) RC (conj I I))|].
@@ -371,6 +374,9 @@ Proof.
     unfold capture_read in RD. rewrite RD in RD'. inversion RD'; subst es'.
     split; [exact RCr|]. intros k S. apply andb_true_iff in S. destruct S as [S O].
     unfold restore_of. rewrite (Gr k O). apply G0. exact S.
+  - split; [|exact IHc]. split; [exact (rc_act _ (AWriteAt k del v rot) RC (conj I I))|].
+    intros k' S. rewrite (db_write_at_get _ k del v rot k' (reach_inv _ (reachc_reach _ RC))). unfold m_write.
+    destruct (beqb k' k); [reflexivity|apply G; exact S].
 Qed.
 
 (* checkpoint_exact over contents, under every background schedule *)
